@@ -138,7 +138,7 @@ pub trait Iterator: Sized {
     // ::core::iter::Iterator::map: functional form (closure computes g) and relational form (i-th output is what the
     // closure returns on the i-th input)
     fn map<B, F: Fn(Self::Item) -> B>(self, f: F) -> (r: Map<B, F>)
-        requires forall|t: Self::Item| #[trigger] f.requires((t,)),
+        requires forall|i: int| 0 <= i < self.items().len() ==> f.requires((#[trigger] self.items()[i],)),
         ensures
             forall|g: spec_fn(Self::Item) -> B| (forall|t: Self::Item, b: B| #[trigger] f.ensures((t,), b) ==> b == g(t))
                 ==> r.mitems() == #[trigger] self.items().map_values(g),
@@ -380,8 +380,37 @@ pub mod flat_lemmas {
         ensures #[trigger] Seq::<A>::empty().map_values(g) == Seq::<B>::empty(),
     { assert(Seq::<A>::empty().map_values(g) =~= Seq::<B>::empty()); }
 
-    pub broadcast group group_seq { lemma_add_empty_left, lemma_add_empty_right, lemma_sflat_singleton, lemma_sflat_empty, lemma_map_values_singleton, lemma_map_values_empty }
+    // pointwise equal views: the token sequences of a list of streams
+    pub broadcast proof fn lemma_toks_of_pointwise(s: Seq<TokenStream>, t: Seq<Seq<Tok>>)
+        requires s.len() == t.len(), forall|i: int| 0 <= i < s.len() ==> (#[trigger] s[i])@ == t[i],
+        ensures #![trigger toks_of(s), flat(t)] toks_of(s) == t,
+    { assert(toks_of(s) =~= t); }
 
-    pub broadcast group group_flat { lemma_toks_of_push, lemma_flat_concat, lemma_flat_push, lemma_flat_singleton, lemma_flat_empty, lemma_toks_of_empty }
+    pub broadcast proof fn lemma_toks_of_concat(a: Seq<TokenStream>, b: Seq<TokenStream>)
+        ensures #[trigger] toks_of(a + b) == toks_of(a) + toks_of(b),
+    { assert(toks_of(a + b) =~= toks_of(a) + toks_of(b)); }
+
+    pub broadcast proof fn lemma_sfilter_satisfies<A>(s: Seq<A>, q: spec_fn(A) -> bool, i: int)
+        requires 0 <= i < sfilter(s, q).len(),
+        ensures q(#[trigger] sfilter(s, q)[i]),
+        decreases s.len(),
+    {
+        if s.len() > 0 {
+            let rest = sfilter(s.drop_first(), q);
+            if q(s[0]) {
+                assert(sfilter(s, q) == seq![s[0]] + rest);
+                if i > 0 {
+                    assert(sfilter(s, q)[i] == rest[i - 1]);
+                    lemma_sfilter_satisfies(s.drop_first(), q, i - 1);
+                }
+            } else {
+                lemma_sfilter_satisfies(s.drop_first(), q, i);
+            }
+        }
+    }
+
+    pub broadcast group group_seq { lemma_sfilter_satisfies, lemma_add_empty_left, lemma_add_empty_right, lemma_sflat_singleton, lemma_sflat_empty, lemma_map_values_singleton, lemma_map_values_empty }
+
+    pub broadcast group group_flat { lemma_toks_of_pointwise, lemma_toks_of_concat, lemma_toks_of_push, lemma_flat_concat, lemma_flat_push, lemma_flat_singleton, lemma_flat_empty, lemma_toks_of_empty }
     }
 }
